@@ -212,6 +212,21 @@ def _inert_callback(fi, cb, rest):
     return False
 
 
+def _inert_target(cb, rest):
+    """(field name, pop has a default) of an inert callback."""
+    m = match("functools.partial(self.$f.pop, $*a)", cb)
+    if m is not None:
+        return m["f"], len(m["a"]) + len(rest) >= 2
+    m = match("self.$f.pop", cb)
+    if m is not None:
+        return m["f"], len(rest) >= 2
+    if isinstance(cb, ast.Lambda):
+        m = match("self.$f.pop($*a)", cb.body)
+        if m is not None:
+            return m["f"], len(m["a"]) >= 2
+    return None, True
+
+
 @R.clause("C18.d", "timer ownership: every call_later handle of the message layer is cancelled by shutdown or its callback is inert")
 def d(ctx):
     sh = ctx.prog.func(MM + "shutdown")
@@ -230,6 +245,21 @@ def d(ctx):
         rest = c.args[2:]
         if cb is not None and _inert_callback(fi, cb, rest):
             ctx.ob("timer callback is inert (only forgets a key of the same object)", True, fi, c)
+            # ... and cannot raise after shutdown: `pop(key)` without a default is safe only while nothing
+            # else ever removes entries from that dict
+            fld, has_default = _inert_target(cb, rest)
+            if fld is not None and not has_default:
+                removers = []
+                for fn, hits in field_writers(ctx.prog, fld).items():
+                    for kind, node in hits:
+                        if kind in ("pop", "popitem", "clear", "delitem", "del", "remove", "discard") or (kind == "assign" and not fn.endswith(".__init__")):
+                            removers.append((fn, kind, node))
+                if removers:
+                    f2 = ctx.prog.funcs["aiocoap." + removers[0][0]]
+                    ctx.ob("a pending inert timer cannot raise: no other code removes entries of %s (its callback pops without a default)" % fld, False, f2, removers[0][2],
+                           detail="%s in %s while %s.pop(key) timers without default may still be pending" % (removers[0][1], removers[0][0], fld))
+                else:
+                    ctx.ob("a pending inert timer cannot raise: no other code removes entries of %s" % fld, True, fi, c)
             continue
         owners = _handle_owners(ctx, fi, c, depth=0)
         ok = any(o in walks for o in owners)
@@ -292,6 +322,16 @@ def _handle_owners(ctx, fi, call, depth):
     return owners
 
 
+@R.clause("C18.g", "every running server handler is in the table shutdown drains: a request overriding the same (token, remote) stops and removes the old entry before the new one is stored (shared with C08.e)")
+def g_shared(ctx):
+    """TokenManager.shutdown can only cancel the handlers it finds in incoming_requests.  An independently written
+    breaking change stored the new (pipe, stopper) before stopping the overridden one, whose end-of-interest hook then
+    deleted the *new* entry by key: the replacement handler ran on through shutdown.  The obligations are the
+    process_request part of C08.e."""
+    from . import c08
+    c08._e_process_request(ctx)
+
+
 @R.clause("C18.e", "late errors after shutdown are tolerated: dispatch_error returns at once when the tables are retired")
 def e(ctx):
     for short, table in ((MM + "dispatch_error", "self._active_exchanges"), (TM + "dispatch_error", "self.outgoing_requests")):
@@ -351,6 +391,7 @@ def f(ctx):
 
 
 F_MM = "aiocoap/messagemanager.py"
+R.seed("C18.d", F_MM, "        self._active_exchanges = None\n", "        self._active_exchanges = None\n        self._recent_messages.clear()\n", "de-duplication entries cleared while their pop-without-default expiry timers stay armed: KeyError in the loop after shutdown")
 F_TM = "aiocoap/tokenmanager.py"
 F_P = "aiocoap/protocol.py"
 R.seed("C18.a", F_P, "            timeout=SHUTDOWN_TIMEOUT,\n        )\n        for item in done:", "            timeout=None,\n        )\n        for item in done:", "unbounded wait")
@@ -368,3 +409,5 @@ R.seed("C18.d", F_MM, "        for _mid, empty_ack_timeout in self._piggyback_op
 R.seed("C18.e", F_MM, "                \"Internal shutdown sequence mismatch: error dispatched through messagemanager after shutown\"\n            )\n            return\n", "                \"Internal shutdown sequence mismatch: error dispatched through messagemanager after shutown\"\n            )\n", "late error crashes on None table")
 R.seed("C18.e", F_TM, "                \"Internal shutdown sequence msismatch: error dispatched through tokenmanager after shutdown\"\n            )\n            return\n", "                \"Internal shutdown sequence msismatch: error dispatched through tokenmanager after shutdown\"\n            )\n            raise RuntimeError(\"late\")\n", "late error raises in the loop")
 R.seed("C18.f", F_MM, "            if self._active_exchanges is None:\n                # during shutdown, this is all we can do\n                message.mtype = NON", "            if self._active_exchanges is None:\n                # during shutdown, this is all we can do\n                message.mtype = CON", "CON during shutdown")
+
+R.seed("C18.g", F_TM, "            (pipe, stop) = self.incoming_requests.pop(key)\n            stop()\n", "            (pipe, stop) = self.incoming_requests[key]\n", "overridden request neither removed nor stopped before the new entry is stored")
